@@ -123,7 +123,7 @@ func (tuple Tuple) CompletionAtPos(ctx context.Context, pos hcl.Pos) []lang.Cand
 	recoveredBytes := recoverLeftBytes(fileBytes, pos, func(byteOffset int, r rune) bool {
 		return (r == '[' || r == ',') && byteOffset > lastElemEndPos.Byte
 	})
-	trimmedBytes := bytes.TrimRight(recoveredBytes, " \t\n")
+	trimmedBytes := bytes.TrimRight(recoveredBytes, " \t\r\n")
 
 	if len(trimmedBytes) == 0 {
 		return []lang.Candidate{}
